@@ -594,6 +594,27 @@ def write_hext(quads, style):
     return "\n".join(lines) + "\n"
 
 
+def write_patch(quads, style):
+    """RDF Patch: header, one transaction, an `A` row per statement, then the `D` rows in style["_dels"]; a blank node is
+    `_:x` or (style anonstyle, plain labels only) `<_:x>`"""
+    def term(t):
+        if t[0] == "n" and style.get("anonstyle") and t[1].isalnum():
+            return "<_:%s>" % t[1]
+        return nt_term(t)
+
+    def row(op, q):
+        tail = "" if q[3] is None else " " + term(q[3])
+        return "%s %s %s %s%s ." % (op, term(q[0]), term(q[1]), term(q[2]), tail)
+    lines = ["H id <urn:c12:patch>"] if style.get("comment") else []
+    tx = style.get("group")
+    if tx:
+        lines.append("TX .")
+    lines += [row("A", q) for q in quads] + [row("D", q) for q in style.get("_dels", [])]
+    if tx:
+        lines.append("TC .")
+    return "\n".join(lines) + "\n"
+
+
 def write_n3(quads, style):
     style = {**style, "sparqlprefix": False, "n3path": style.get("path")}      # N3 has no SPARQL-style PREFIX; paths are N3 only
     top, formulas = [], {}
@@ -608,7 +629,7 @@ def write_n3(quads, style):
 
 
 WRITERS = {"nt": write_nt, "nquads": write_nquads, "turtle": write_turtle, "n3": write_n3, "trig": write_trig,
-           "xml": write_xml, "trix": write_trix, "json-ld": write_jsonld, "hext": write_hext}
+           "xml": write_xml, "trix": write_trix, "json-ld": write_jsonld, "hext": write_hext, "patch": write_patch}
 
 
 def write(fmt, quads, style):
